@@ -122,7 +122,72 @@ Section Msg.
     all: try discriminate.
     all: try solve [apply Hq; simpl; eauto].
     all: try solve [eapply Hr; eauto].
-    Show.
-  Admitted.
+    subst u. apply Hr. reflexivity.
+  Qed.
 
+  Theorem head_inv_reachable heads b s :
+    reachable (init_state heads b) s -> head_inv s.
+  Proof.
+    induction 1 as [|s l s' _ IH Hs]; [apply head_inv_init|exact (head_inv_step _ _ _ IH Hs)].
+  Qed.
+
+  (** ---- the waiter's contract ---- *)
+
+  (** success (the waiter left its loop with nil, or has returned nil) iff it
+      received a head at or beyond its target; that head was published for the
+      connection that was the best one when it was sent ([log], see
+      [log_from_best]) and the connection had really reached it *)
+  Theorem wait_success heads b s w :
+    reachable (init_state heads b) s ->
+    (wpc s w = WUnsub ROk \/ wpc s w = WDone ROk) ->
+    exists c h, wgot s w = Some (c, h) /\ (tgt w <= h)%N /\ In (c, h) (log s) /\ (h <= head s c)%N.
+  Proof.
+    intros Hr Hpc.
+    destruct (msg_inv_reachable _ _ _ Hr) as (_ & Hgot & _ & Hok).
+    destruct (head_inv_reachable _ _ _ Hr) as (Hlog & _).
+    destruct (proj1 (Hok w) Hpc) as ([c h] & Hg & Hle).
+    exists c, h. repeat apply conj; [exact Hg|exact Hle|exact (Hgot _ _ Hg)|].
+    apply Hlog. exact (Hgot _ _ Hg).
+  Qed.
+
+  Theorem wait_success_iff heads b s w :
+    reachable (init_state heads b) s ->
+    ((wpc s w = WUnsub ROk \/ wpc s w = WDone ROk) <->
+     exists m, wgot s w = Some m /\ (tgt w <= snd m)%N).
+  Proof. intros Hr. destruct (msg_inv_reachable _ _ _ Hr) as (_ & _ & _ & Hok). apply Hok. Qed.
+
+  (** a waiter in its loop can always take the timeout / cancel branch, and takes
+      the success branch as soon as a sufficient head is in its channel *)
+  Theorem wait_leave_enabled s w r :
+    wpc s w = WWait -> r <> ROk -> exists s', step s (LLeave w r) = Some s' /\ wpc s' w = WUnsub r.
+  Proof.
+    intros Hpc Hr. unfold step. rewrite Hpc.
+    destruct r; [contradiction| |]; eexists; (split; [reflexivity|]); sred; apply fupd_same.
+  Qed.
+
+  Theorem wait_recv_enabled s w m :
+    wpc s w = WWait -> wch s w = Some m ->
+    exists s', step s (LRecv w) = Some s' /\
+      wpc s' w = (if (tgt w <=? snd m)%N then WUnsub ROk else WWait) /\ wch s' w = None.
+  Proof.
+    intros Hpc Hch. unfold step. rewrite Hpc, Hch. eexists. split; [reflexivity|].
+    sred. rewrite !fupd_same. auto.
+  Qed.
+
+  (** an error result is only ever produced by the timeout / cancel branch *)
+  Theorem wait_error s l s' w r :
+    step s l = Some s' -> wpc s' w = WUnsub r -> wpc s w <> WUnsub r -> r <> ROk -> l = LLeave w r.
+  Proof.
+    intros Hs Hpc' Hpc Hr. step_inv Hs; guards; sred; try congruence.
+    all: fu; sred; try congruence.
+    all: match goal with H : (if ?b then _ else _) = _ |- _ => destruct b; congruence end.
+  Qed.
+
+  (** returning (running the deferred unsubscribe) needs the pool lock: it is
+      enabled exactly when nobody holds it *)
+  Theorem wait_return_enabled s w r :
+    wpc s w = WUnsub r -> (step s (LUnsub w) <> None <-> lock_free s = true).
+  Proof.
+    intros Hpc. unfold step. rewrite Hpc. destruct (lock_free s); split; congruence.
+  Qed.
 End Msg.
